@@ -10,7 +10,8 @@ model under the schedule given by the lines and prints the observable state.
                                    cannot hold a goroutine inside Cond.Wait)
   ring call <P|C> <call>           un-hooked sequential call on an idle thread (soak)
   ring finish                      fair round-robin to quiescence, then Close and later calls (C15)
-  ring pipe <total> <chunk>        free-running ReadFrom/WriteTo pipe (impl side only; constant here)
+  ring pipe <total> <chunk> [f]    free-running ReadFrom/WriteTo pipe, the writer failing after f writes if f > 0
+                                   (impl side only; constant here)
 
 The granularity of `step` is the real scheduler's: byte copies run to the next mark.
 -/
@@ -320,6 +321,11 @@ def handle (d : DSt) (ws : List String) : DSt × String × String :=
       match total.toNat? with
       | some n => (d, s!"pipe rf={n}:eof wt=eof pre=true", "pipe ok")
       | none => (d, "bad-op", "bad-op")
+    | ["pipe", total, _chunk, fail] =>
+      match total.toNat?, fail.toNat? with
+      | some n, some f =>
+        if f == 0 then (d, s!"pipe rf={n}:eof wt=eof pre=true", "pipe ok") else (d, "pipe done pre=true", "pipe ok")
+      | _, _ => (d, "bad-op", "bad-op")
     | _ => (d, "bad-op", "bad-op")
 
 end Mqtt.Driver.Ring
